@@ -42,20 +42,26 @@ CONFIG = dict(
          "12 or 24 bytes, session id changing after a cache restart); responses abandoned half-way followed by Cache Reset; Router "
          "Key PDUs of realistic size (123 bytes), bodies of 200/5000/65527 bytes (the largest PDU the framing allows); prefix "
          "lengths 0,8,16,24,25,31,32 / 0,32,48,64,112,113,128 with distinct low-order bytes; up to 8 End of Data per stream; "
-         "optional malformed tail (length < 8, wrong fixed length, length 65536, huge length, truncated PDU, garbage). Delivery: "
+         "optional malformed tail (length < 8, wrong fixed length, length 65536, huge length, truncated PDU, garbage); PLUS a "
+         "deterministic boundary batch in every run (declared lengths 0/7/8/65535/65536, each fixed-size type one octet short and "
+         "one long, header split 7+1, prefix length 0/1/7/8/9/max-1/max/max+1/255 x max-length below/at/above, flags 0..255, AS "
+         "0/1/max-1/max, Serial Notify before and after End of Data with equal/other/0/max serial, soft reset before the first End "
+         "of Data, empty responses, Cache Reset first/twice/in mid response, every Error Report code with and without body, serial "
+         "wrap, versions 0/2/255 and a version change); input classes are counted in evidence.oracle_clause_counts (in-*). Delivery: "
          "random fragment sizes 1..200 (often cut exactly at End-of-Data boundaries, followed by a snapshot; otherwise spanning "
          "them), soft resets after a completed round, session end by EOF or cancellation at any byte offset, bytes queued and the peer gone before the client ran, "
          "client writes made to fail from some point on, snapshots after every group and at the end; try_connect/serve over "
          "loopback TCP: cancel, and the hard-reset sequence of the gRPC handler (old session cancelled, rpki_drop_all with a fresh "
          "Arc, new client on the same address while the old socket is open).  non-trivial = some snapshot shows installed ROAs; distinct = distinct case line",
-    expect_tokens=["(serial ", "reset reset", "(done 1", "(6 x", "(4 x", "(roas)", "(tcp cleared", "(tcp-reset ok", "(bad-case)"],
+    expect_tokens=["(serial ", "reset reset", "(done 1", "(6 x", "(4 x", "(roas)", "(tcp cleared", "(tcp-reset ok", "(tcp-reconnect ok", "(bad-case)"],
     trusted_base=["model Rbgp/Rtr/Model.lean of packet/src/rpki.rs (from_bytes, parse, RtrCodec::decode) and daemon/src/rpki.rs serve_inner",
                   "model Rbgp/Rpki/Model.lean of RpkiTable underneath (C12)",
                   "harness/daemon/rpki.rs: PDU encoder, duplex plumbing, polling to quiescence; try_connect over loopback TCP"],
     modelled_not_verified=["tokio select!/Notify scheduling (abstracted to run-until-blocked; ambiguous orders avoided)",
                            "tokio_util Framed buffering and decode_eof (EOF with or without residual bytes ends the session)",
-                           "the reconnect loop of try_connect beyond its exit path (timers, 10 s back-off); a reconnect re-uses "
-                           "RpkiState/Notify/CancellationToken whereas every script session starts from fresh ones",
+                           "the reconnect loop of try_connect is executed for real (case-tcp-reconnect, paused tokio clock: connection "
+                           "closed by the cache, 10 s back-off, reconnect with the same RpkiState and a Reset Query, connect failures, "
+                           "cancellation) but modelled only as its expected outcome, not step by step",
                            "the gRPC/config triggers of a session end (remove_rpki_client, disable_rpki, reset_rpki): only their effect "
                            "(token cancelled; for the hard reset also rpki_drop_all(Arc::new(addr)) and a new try_connect) is reproduced",
                            "a blocked (as opposed to failing) write of the client"],
@@ -64,7 +70,19 @@ CONFIG = dict(
                  "after an Error Report PDU the client may keep or drop the session (RFC 8210 section 10); if it keeps it the "
                  "installed set is still judged"],
     oracle_stats=True,
-    expect_judged=["judged-installed", "judged-installed-empty", "judged-kept", "judged-consumed", "judged-ended-cleared"],
+    expect_judged=["judged-installed", "judged-installed-empty", "judged-kept", "judged-consumed", "judged-ended-cleared",
+                   # input classes (boundary buckets, counted per case) that every run must contain
+                   "in-junk-length-below-8", "in-junk-length-above-65535", "in-junk-fixed-length-one-short",
+                   "in-junk-fixed-length-one-long", "in-junk-truncated", "in-pdu-length-8", "in-pdu-length-65535", "in-pdu-longer-than-108",
+                   "in-router-key", "in-unknown-type", "in-known-type-as-raw", "in-fragment-below-header-size",
+                   "in-v4-plen-0", "in-v4-plen-max-1", "in-v4-plen-max", "in-v4-plen-over-max", "in-v6-plen-0", "in-v6-plen-max-1",
+                   "in-v6-plen-max", "in-v6-plen-over-max", "in-maxlen-below-plen", "in-maxlen-eq-plen", "in-maxlen-255",
+                   "in-as-0", "in-as-max", "in-flags-other-bits", "in-withdraw", "in-serial-0", "in-serial-max",
+                   "in-session-id-0", "in-session-id-max", "in-version-0", "in-version-2", "in-version-3", "in-eod-12-bytes",
+                   "in-notify-before-first-end-of-data", "in-notify-after-end-of-data", "in-cache-reset-before-any-data",
+                   "in-cache-reset-in-mid-response", "in-empty-first-response", "in-empty-reset-response-after-data",
+                   "in-empty-serial-response", "in-five-or-more-end-of-data", "in-two-sessions-one-address", "in-write-failure",
+                   "in-soft-reset", "in-end-eof", "in-end-cancel", "in-tcp-reconnect-cycle"] + ["in-error-report-code-%d" % k for k in range(10)],
     claimed=True,
 )
 
@@ -334,11 +352,98 @@ MALFORMED = [
 ]
 
 
+# ---------------------------------------------------------------------------------------------------------
+# deterministic boundary batch: every quick run hits each exact boundary of the framing, of the PDU fields and
+# of the round structure (the random stream only reaches them now and then)
+
+def one(pdus, steps=None, per_pdu=False):
+    """a single-session case: everything in one piece then a snapshot, or PDU by PDU with a snapshot after each"""
+    if steps is None:
+        if per_pdu:
+            steps = ["(start 1)"]
+            for p in pdus:
+                steps += ["(send 1 %d)" % plen(p), "(snap)"]
+        else:
+            steps = ["(start 1)", "(send 1 %d)" % (sum(map(plen, pdus)) + 1), "(snap)"]
+        steps += ["(end 1 eof)", "(snap)"]
+    return "(case (streams (1 1 (%s))) (steps %s))" % (" ".join(pstr(p) for p in pdus), " ".join(steps))
+
+
+def hdr(v, ty, sess, length):
+    return "%02x%02x%04x%08x" % (v, ty, sess, length)
+
+
+def boundary_cases():
+    out = []
+    base = [("cr", 1, 7), ("p4", 1, 1, 8, 24, "0a000000", 65001), ("eod", 1, 7, 5)]
+    tail = [("cr", 1, 7), ("p4", 1, 1, 16, 16, "0b000000", 65009), ("eod", 1, 7, 6)]
+    # A. framing: declared lengths 0, 7, 8, 65535, 65536; every fixed-size type one short and one long
+    for ln in (0, 7):
+        out.append(one(base + [("junk", hdr(1, 2, 0, ln))] + tail, per_pdu=True))
+    out.append(one(base + [("raw", 1, 9, 0, "")] + tail, per_pdu=True))                  # header-only unknown PDU
+    out.append(one(base + [("raw", 1, 255, 65535, "ab" * 65527)] + tail))                 # length 65535
+    out.append(one(base + [("junk", hdr(1, 9, 0, 65536) + "00" * 16)] + tail))            # length 65536
+    for (ty, size) in ((0, 12), (1, 12), (2, 8), (3, 8), (8, 8), (4, 20), (6, 32), (7, 24)):
+        for d in (-1, 1):
+            ln = size + d
+            out.append(one(base + [("junk", hdr(1, ty, 7, ln) + "00" * max(0, ln - 8))] + tail, per_pdu=True))
+    out.append(one(base + [("junk", hdr(0, 7, 7, 24) + "00" * 16)] + tail))               # v0 End of Data with the v1 length
+    out.append(one(base + [("junk", hdr(1, 7, 7, 12) + "00" * 4)] + tail))                # v1 End of Data with the v0 length
+    out.append(one(base + [("raw", 1, 1, 7, "00000005"), ("raw", 1, 2, 0, "")] + tail))   # queries sent BY the cache
+    out.append(one(base + tail, steps=["(start 1)", "(send 1 7)", "(snap)", "(send 1 1)", "(snap)", "(send 1 19)", "(send 1 1)",
+                                        "(snap)", "(send 1 23)", "(snap)", "(send 1 1)", "(snap)", "(send 1 200)", "(snap)"]))
+    # B. prefix PDU fields: flags, prefix length, max length, AS at 0 / 1 / max-1 / max / max+1 / 255
+    for fam, w, addr in (("p4", 32, "c0a80101"), ("p6", 128, "20010db8000100020003000400050006")):
+        for pl in (0, 1, 7, 8, 9, w - 1, w, w + 1, 255):
+            for ml in sorted({0, max(0, pl - 1), pl, min(255, pl + 1), 255}):
+                r1 = [("cr", 1, 7), (fam, 1, 1, pl, ml, addr, 65001), ("eod", 1, 7, 5)]
+                r2 = [("cr", 1, 7), (fam, 1, 0, pl, ml, addr, 65001), (fam, 1, 1, pl, ml, addr, 65002), ("eod", 1, 7, 6)]
+                out.append(one(r1 + r2, per_pdu=(ml == pl)))
+        for flags in (0, 1, 2, 3, 254, 255):
+            for asn in (0, 1, 4294967294, 4294967295):
+                r1 = [("cr", 1, 7), (fam, 1, 1, 8, 8, addr, 7), ("eod", 1, 7, 5)]
+                r2 = [("cr", 1, 7), (fam, 1, flags, 16, 24, addr, asn), (fam, 1, flags ^ 1, 8, 8, addr, 7), ("eod", 1, 7, 6)]
+                out.append(one(r1 + r2))
+    # C. Serial Notify: before the first End of Data; equal / different / 0 / max serial after it
+    for serial in (5, 6, 4, 0, 4294967295):
+        out.append(one([("notify", 1, 7, serial)] + base + [("notify", 1, 7, serial)] + tail, per_pdu=True))
+    # D. a soft reset requested while the first response is still being received
+    out.append(one(base + tail, steps=["(start 1)", "(send 1 8)", "(soft 1)", "(snap)", "(send 1 44)", "(snap)", "(soft 1)", "(snap)",
+                                        "(send 1 52)", "(snap)"]))
+    # E. round structure: empty responses, Cache Reset first / twice / in mid response, no Cache Response, session id change
+    empty = [("cr", 1, 7), ("eod", 1, 7, 9)]
+    out.append(one(empty + tail, per_pdu=True))
+    out.append(one(base + [("creset", 1)] + empty, per_pdu=True))
+    out.append(one([("creset", 1)] + base, per_pdu=True))
+    out.append(one(base + [("creset", 1), ("creset", 1)] + tail, per_pdu=True))
+    out.append(one(base + [("cr", 1, 7), ("p4", 1, 1, 24, 24, "0a010100", 3), ("creset", 1)] + tail, per_pdu=True))
+    out.append(one([("cr", 1, 7), ("p4", 1, 1, 24, 24, "0a010100", 3), ("creset", 1)] + tail, per_pdu=True))
+    out.append(one([("p4", 1, 1, 8, 24, "0a000000", 65001), ("eod", 1, 7, 5)] + tail[1:], per_pdu=True))
+    out.append(one(base + [("cr", 1, 0)] + tail[1:] + [("cr", 1, 65535), ("eod", 1, 65535, 7)], per_pdu=True))
+    out.append(one(base + base + [("cr", 1, 7), ("cr", 1, 8)] + tail[1:], per_pdu=True))
+    # F. Error Report: every code, with and without body, in mid response and between responses
+    for code in (0, 1, 2, 3, 4, 5, 6, 7, 8, 9, 65535):
+        for body in ("", "00" * 120):
+            out.append(one(base + [("err", 1, code, body)] + tail, per_pdu=True))
+            out.append(one(base[:2] + [("err", 1, code, body)] + base[2:] + tail))
+    # G. serial number wrap
+    out.append(one([("cr", 1, 7), ("p4", 1, 1, 8, 24, "0a000000", 65001), ("eod", 1, 7, 4294967295), ("notify", 1, 7, 0)]
+                   + [("cr", 1, 7), ("p4", 1, 1, 16, 16, "0b000000", 65009), ("eod", 1, 7, 0)], per_pdu=True))
+    # H. protocol versions 0, 1, 2, 255 and a version change inside the session
+    for v in (0, 2, 255):
+        out.append(one([("cr", v, 7), ("p6", v, 1, 48, 48, "20010db8000100000000000000000000", 1), ("eod", v, 7, 5),
+                        ("raw", v, 9, 0, "00" * 115), ("cr", v, 7), ("p4", v, 0, 8, 8, "0a000000", 1), ("eod", v, 7, 6)], per_pdu=True))
+    out.append(one(base + [("cr", 0, 7), ("p4", 0, 1, 16, 16, "0b000000", 65009), ("eod", 0, 7, 6)], per_pdu=True))
+    return out
+
+
 def gen(seed, n, tier):
     r = Rng(seed * 1000003 + 13)
     out = list(MALFORMED)
+    out += boundary_cases()
     out.append("(case-tcp %d)" % (6 if tier == "quick" else 24))
     out.append("(case-tcp-reset %d)" % (4 if tier == "quick" else 16))
+    out.append("(case-tcp-reconnect %d)" % (6 if tier == "quick" else 32))
     for _ in range(n):
         out.append(gen_case(r))
     return out
